@@ -44,6 +44,23 @@ func ProduceWithContextMapKeys[K comparable, V any](ctx context.Context, in map[
 	return out
 }
 
+// A stage that has failed keeps reading its input until the upstream stage has
+// finished or the pipeline is cancelled. The error merge waits for every stage
+// to end, an upstream stage blocked on sending to a stage that has gone away
+// would make it wait for ever.
+func drainWithContext[T any](ctx context.Context, in <-chan T) {
+	for {
+		select {
+		case <-ctx.Done():
+			return
+		case _, ok := <-in:
+			if !ok {
+				return
+			}
+		}
+	}
+}
+
 func TransformWithContext[A, B any](ctx context.Context, in <-chan A, transformFn func(A) (out B, skip bool, err error)) (<-chan B, <-chan error) {
 	out := make(chan B)
 	errC := make(chan error, 1)
@@ -68,6 +85,7 @@ func TransformWithContext[A, B any](ctx context.Context, in <-chan A, transformF
 				}
 				if err != nil {
 					errC <- err
+					drainWithContext(ctx, in)
 					return
 				}
 				// Can we send? It may be the context is cancelled and there are
@@ -105,6 +123,7 @@ func TransformWithContextMultiple[A, B any](ctx context.Context, in <-chan A, tr
 				bs, err := transformFn(a)
 				if err != nil {
 					errC <- err
+					drainWithContext(ctx, in)
 					return
 				}
 				for _, b := range bs {
@@ -199,6 +218,7 @@ func SinkWithContext[T any](ctx context.Context, in <-chan T, sinkFn func(T) err
 				}
 				if err := sinkFn(b); err != nil {
 					errC <- err
+					drainWithContext(ctx, in)
 					return
 				}
 			}
